@@ -26,14 +26,30 @@ MISC = ["Obs:+17.05685", "Obs:-1.5", "INFO:anything here", "INFO:x", "#g1", "Oxi
         "#XL1", "Oxidation|INFO:x", "Phospho|Obs:+79.966|INFO:y", "+15.995#g2", "XLMOD:02001#XL1", "Phospho#s1(0.90)",
         "Formula:C2H4|INFO:f", "Glycan:Hex|INFO:g"]
 ISOTOPES = ["13C", "15N", "18O", "D", "T", "17O", "34S", "2H"]
+STATICS_MASSY = ["[Carbamidomethyl]@C", "[Oxidation]@M", "[+15.995]@M", "[Formula:C2H4]@K,R", "[Acetyl]@N-Term",
+                 "[Amidated]@C-Term", "[Phospho]@S,T,Y", "[1]@P", "[Methyl][Oxidation]@E", "[3.5]@N-Term,K",
+                 "[Oxidation]^2@M", "[U:35]@W", "[Glycan:Hex]@N", "[-18.010565]@C-Term,D"]
 STATICS = ["[Carbamidomethyl]@C", "[Oxidation]@M", "[+15.995]@M", "[Formula:C2H4]@K,R", "[Acetyl]@N-Term",
            "[Amidated]@C-Term", "[Phospho]@S,T,Y", "[1]@P", "[Methyl][Oxidation]@E", "[3.5]@N-Term,K", "[Oxidation]^2@M"]
 ADDUCTS = ["+H+", "+2Na+,+H+", "+Na+", "+K+", "+2H+", "-H+", "+Ca2+", "+Mg2+", "+Cl-", "+Li+", "+Na+,+K+", "+3H+",
            "+2Na+,-H+", "+e-"]
 
 
+MASSY = (["Oxidation", "Phospho", "Acetyl", "Carbamidomethyl", "Methyl", "Deamidated", "Amidated", "Dehydrated",
+          "Carbamyl", "U:Oxidation", "UNIMOD:35", "U:35", "Unimod:21", "unimod:Acetyl", "MOD:00046",
+          "M:O-phospho-L-serine", "O-phospho-L-serine", "Label:13C(6)", "Label:13C(6)15N(2)", "U:+15.995", "M:-18.01",
+          "Obs:+17.05685", "Obs:-1.5", "Oxidation#g1", "#g1", "Oxidation#g1(0.5)", "Oxidation|INFO:x",
+          "Phospho|Obs:+79.966|INFO:y", "+15.995#g2", "Formula:C2H4|INFO:f", "Glycan:Hex|INFO:g", "Phospho#s1(0.90)",
+          "INFO:x|Oxidation"] + FORMULAS + GLYCANS)
+
+
 def modval(rnd: random.Random, kinds="all") -> str:
     r = rnd.random()
+    if kinds == "massy2":   # every spelling whose mass the specification knows a priori
+        if r < 0.3:
+            t, b = rnd.choice(NUMS)
+            return f"{t}:{b}"
+        return "s:" + rnd.choice(MASSY)
     if kinds == "num" or (kinds == "all" and r < 0.35):
         t, b = rnd.choice(NUMS)
         return f"{t}:{b}"
